@@ -19,7 +19,7 @@ Proof. exact roundtrip_xyz_stmt. Qed.
 Print Assumptions C04_roundtrip_xyz.
 
 Theorem C04_roundtrip_obj : forall (F Ftxt Cx Ctxt : Type) (pf : F -> Ftxt) (rf : Ftxt -> F) (f_of_int : Z -> F),
-  (forall x, rf (pf x) = x) -> forall sw (m : mesh F Cx) L, no_obj_attrs m ->
+  (forall x, rf (pf x) = x) -> forall sw (m : mesh F Cx) L, no_obj_attrs m -> nonneg_edges (mE m) -> nonneg_elems (mF m) ->
   @print_obj F Ftxt Cx Ctxt pf sw m = Some L -> @parse_obj F Ftxt Cx Ctxt rf f_of_int L = vocab_obj sw m.
 Proof. exact roundtrip_obj_stmt. Qed.
 Print Assumptions C04_roundtrip_obj.
@@ -91,10 +91,24 @@ Theorem C04_interop_obj : forall (F Ftxt Cx Ctxt : Type) (pf : F -> Ftxt) (rf : 
   (forall x, rf (pf x) = x) -> forall sw (m : mesh F Cx), no_obj_attrs m ->
   (forall L el, obj_exported_edges sw m = Some el -> @obj_ref_ok F Cx el m -> @print_obj F Ftxt Cx Ctxt pf sw m = Some L ->
      @ref_parse_obj F Ftxt Cx Ctxt rf f_of_int L = Some (raw_of Cx (map (@v3 F) (mV m)) (map e2 el) (mF m) []))
-  /\ @parse_obj F Ftxt Cx Ctxt rf f_of_int (@ref_print_obj F Ftxt Cx Ctxt pf m)
-     = Some (raw_of Cx (map (@v3 F) (mV m)) (map (fun e => keyify2 (fst e) (snd e)) (mE m)) (mF m) []).
+  /\ (nonneg_edges (mE m) -> nonneg_elems (mF m) ->
+      @parse_obj F Ftxt Cx Ctxt rf f_of_int (@ref_print_obj F Ftxt Cx Ctxt pf m)
+      = Some (raw_of Cx (map (@v3 F) (mV m)) (map (fun e => keyify2 (fst e) (snd e)) (mE m)) (mF m) [])).
 Proof. exact interop_obj_stmt. Qed.
 Print Assumptions C04_interop_obj.
+
+(* OBJ relative references (repaired in /repo, resolve_index): an independent writer may designate the vertex i of the n
+   vertices written so far by i - n (-1 = the last one), in f and in l statements.  ref_print_obj_rel writes the n vertices, then
+   every polyline and face that way; mouette loads the mesh it denotes.  The bound i < n is what makes i - n a relative
+   reference (negative); nonneg_edges / nonneg_elems above: an index of a mesh is a natural number (absolute references) *)
+Theorem C04_interop_obj_relative : forall (F Ftxt Cx Ctxt : Type) (pf : F -> Ftxt) (rf : Ftxt -> F) (f_of_int : Z -> F),
+  (forall x, rf (pf x) = x) -> forall (m : mesh F Cx),
+  Forall (fun e : Z * Z => fst e < zlen (mV m) /\ snd e < zlen (mV m)) (mE m) ->
+  Forall (Forall (fun i => i < zlen (mV m))) (mF m) ->
+  @parse_obj F Ftxt Cx Ctxt rf f_of_int (@ref_print_obj_rel F Ftxt Cx Ctxt pf m)
+  = Some (raw_of Cx (map (@v3 F) (mV m)) (map (fun e => keyify2 (fst e) (snd e)) (mE m)) (mF m) []).
+Proof. exact interop_obj_relative_stmt. Qed.
+Print Assumptions C04_interop_obj_relative.
 
 Theorem C04_interop_off : forall (F Ftxt Cx Ctxt : Type) (pf : F -> Ftxt) (rf : Ftxt -> F) (f_of_int : Z -> F),
   (forall x, rf (pf x) = x) -> forall (m : mesh F Cx),
@@ -194,11 +208,6 @@ Proof. exact ignore_elements_stmt. Qed.
 Print Assumptions C04_ignore_elements.
 
 (* ---- REFUTED for the faithful model (known findings, each replayed on the implementation on every run) *)
-(* OBJ: -k is the k-th vertex from the end; mouette reads f -3 -2 -1 as the face (-4, -3, -2) *)
-Theorem C04_obj_relative_indices_refuted :
-  exists r, parse_fmt Fobj ex_obj_relative = Some r /\ rF r = [[-4; -3; -2]] /\ rF r <> [[0; 1; 2]].
-Proof. exact obj_relative_indices_refuted. Qed.
-Print Assumptions C04_obj_relative_indices_refuted.
 (* Medit: `Vertices 1` on one line is read by the reference (free-form) reader, skipped by mouette *)
 Theorem C04_medit_inline_count_refuted :
   exists r1 r2, ref_parse_fmt Fmedit ex_medit_inline = Some r1 /\ parse_fmt Fmedit ex_medit_inline = Some r2
